@@ -670,6 +670,8 @@ pub fn compiled_batch(seed: u64, n_hist: usize, n_fam: usize) -> Batch {
             ],
         },
     }));
+    // an enum with a single unit constructor: no size in memory, three bytes on the wire
+    specials.push(Arc::new(Decl { name: "OneCtor".into(), body: DeclBody::Enum { sorted: false, steps: vec![], variants: vec![Variant { name: "Only".into(), shape: Shape::Unit, transient: false, record: Record { fields: vec![], steps: vec![] } }] } }));
     // only unit constructors, some of them transient (and one more than once)
     for (n, sorted) in [("AllUnitT", false), ("AllUnitTS", true)] {
         specials.push(Arc::new(Decl {
@@ -815,6 +817,10 @@ pub fn compiled_batch(seed: u64, n_hist: usize, n_fam: usize) -> Batch {
     }
     Batch { histories, dedup_histories, families, tuple_histories, specials }
 }
+
+/// compiled declarations without any size in memory (their encodings are not empty): sequences of them are
+/// instantiated at the real types by the harness (vcat::live), not at its element type
+pub const ZST_DECLS: [&str; 3] = ["UnitU", "EmptyBraces", "OneCtor"];
 
 pub const QUICK_BATCH: (u64, usize, usize) = (20260928, 36, 12);
 
